@@ -168,7 +168,11 @@ Definition model_ok (c : c11case) : bool :=
         match forced s k with
         | None => false
         | Some (b, final) =>
-          Bool.eqb b blocked && forallb (fun lo => set_eqb (snd lo) (final (fst lo))) (c_obs c)
+          (* views that are not locations of the site's model (all-elements, the label mapping) are
+             judged by the oracle only *)
+          Bool.eqb b blocked &&
+          forallb (fun lo => negb (existsb (String.eqb (fst lo)) (site_locs s)) || set_eqb (snd lo) (final (fst lo)))
+                  (c_obs c)
         end
       end
     end
